@@ -14,6 +14,7 @@ import (
 	"runtime"
 	"strconv"
 	"sync"
+	"time"
 
 	"verif/sim/core"
 )
@@ -219,6 +220,8 @@ type Result struct {
 	Blocked  int     // times a task was found waiting on a lock of the code under test
 	Deadlock bool
 	Stuck    string // non-empty: watchdog (harness problem)
+	Hang     string // non-empty: a task never comes back from a library call (where it spins)
+	HangIn   string // the library function it spins in
 	Sig      uint64
 	Switches int
 	TurnsPer []int
@@ -236,9 +239,13 @@ func Run(t *core.Tape, bodies []func()) Result {
 	setBaton(schedID)
 	mayRunFree = 0
 	active = true
-	defer func() { active = false }()
 	var wg sync.WaitGroup
 	res := Result{TurnsPer: make([]int, n), Sig: 0xcbf29ce484222325}
+	defer func() {
+		if res.Hang == "" { // (a task that never comes back is still running and reads the flag: leave it, the process is given up)
+			active = false
+		}
+	}()
 	for i := range bodies {
 		i := i
 		wg.Add(1)
@@ -273,6 +280,7 @@ func Run(t *core.Tape, bodies []func()) Result {
 		}
 	}
 	last := -1
+	phaseStart := core.CPUNow()
 	for {
 		// settle: every blocked task is either still waiting on the lock or has parked
 		if !settle(n, &res) {
@@ -303,6 +311,18 @@ func Run(t *core.Tape, bodies []func()) Result {
 		}
 		pick := runnable[t.Draw(len(runnable))]
 		res.Steps++
+		core.Tick()
+		if res.Steps&1023 == 0 && core.CPUNow()-phaseStart > 3*core.HangCPU() {
+			// Tasks that are preempted inside library calls (instrumented build) keep reaching
+			// yield points even in a loop that never ends; what gives such a run away is that the
+			// phase does not end: the slowest legitimate one costs a few seconds of CPU time.
+			if fn, where := core.SpinningIn(&stackBuf, goidOf(pick)); fn != "" {
+				res.HangIn, res.Hang = fn, "the interleaved phase does not end ("+(core.CPUNow()-phaseStart).Round(time.Second).String()+" of CPU time, "+strconv.Itoa(res.Steps)+" scheduling steps); task "+strconv.Itoa(pick)+" is at "+where
+			} else {
+				res.Stuck = "the interleaved phase does not end and the task picked last is not inside the library"
+			}
+			return res
+		}
 		res.TurnsPer[pick]++
 		if pick != last {
 			res.Switches++
@@ -317,10 +337,22 @@ func Run(t *core.Tape, bodies []func()) Result {
 		setBaton(pick)
 		// wait for the task to park, finish or block
 		spins = 0
+		turnStart := time.Duration(-1)
 		for getBaton() != schedID {
 			runtime.Gosched()
 			spins++
 			if spins%64 == 0 {
+				// A task that keeps the baton for HangCPU of CPU time (the slowest legitimate
+				// stretch between two yield points costs milliseconds) is not coming back.
+				if now := core.CPUNow(); turnStart < 0 {
+					turnStart = now
+				} else if now-turnStart > core.HangCPU() {
+					if fn, where := core.SpinningIn(&stackBuf, goidOf(pick)); fn != "" {
+						res.HangIn, res.Hang = fn, "task "+strconv.Itoa(pick)+" never comes back from a library call ("+(now-turnStart).Round(time.Second).String()+" of CPU time without reaching a yield point), at "+where
+						return res
+					}
+					turnStart = now // harness code: left to the spin bound below
+				}
 				if isMutexBlocked(goidOf(pick)) {
 					// stable: the owner of the lock is parked and cannot release it before we decide
 					setState(pick, stBlocked)
